@@ -238,6 +238,19 @@ pub fn dec_poll_sched<F: Fam>(bytes: &[u8], sched_seed: u64) -> J {
     r
 }
 
+/// the poll decoder with a Pending before every read of at most `chunk` bytes, the future dropped at every Pending
+pub fn dec_poll_pending<F: Fam>(bytes: &[u8], chunk: usize) -> J {
+    let stream = Arc::new(bytes.to_vec());
+    let steps = if chunk == 1 { bytes.len() + 2 } else { 12 };
+    let script: Vec<RStep> = (0..steps).flat_map(|_| [RStep::Pending, RStep::Data(chunk)]).collect();
+    let mut st: GenericPollPacketState<F::Header> = Default::default();
+    let mut dropf = || true;
+    let (obs, pos) = poll_run::<F>(&stream, script, RStep::Data(usize::MAX), &mut dropf, &mut st, 0);
+    let mut r = obs.result;
+    r["pos"] = J::from(pos);
+    r
+}
+
 pub fn dec3_event<F: Fam>(out: &mut Out, bytes: &[u8]) {
     let sched = bytes.iter().fold(0x9E37u64, |a, b| a.wrapping_mul(31).wrapping_add(*b as u64));
     out.ev(json!({"ev": "Dec3", "fam": F::NAME, "bytes": jbytes(bytes),
@@ -579,17 +592,24 @@ fn random_schedule(rng: &mut Rng, len: usize) -> (Vec<RStep>, RStep) {
 
 /// C05: one run = Reset (stream + the result of one uninterrupted read), then the scheduled run
 pub fn poll_schedule_run<F: Fam>(out: &mut Out, rng: &mut Rng, run: u64, bytes: &[u8]) {
+    poll_scripted_run::<F>(out, rng, run, bytes, None, None)
+}
+
+/// the same with a given script (else a random one) and a given drop policy (Some(true): drop the future at EVERY
+/// Pending, Some(false): never, None: at random)
+pub fn poll_scripted_run<F: Fam>(out: &mut Out, rng: &mut Rng, run: u64, bytes: &[u8], script: Option<(Vec<RStep>, RStep)>,
+                                 drop_all: Option<bool>) {
     let stream = Arc::new(bytes.to_vec());
     let oneshot = dec_poll::<F>(bytes, usize::MAX);
     out.boundary();
     out.hold = true;
     out.ev(json!({"ev": "Reset", "run_start": true, "run": run, "fam": F::NAME, "bytes": jbytes(bytes), "oneshot": oneshot}));
-    let (script, dflt) = random_schedule(rng, bytes.len());
+    let (script, dflt) = script.unwrap_or_else(|| random_schedule(rng, bytes.len()));
     let mut st: GenericPollPacketState<F::Header> = Default::default();
     let mut dropper_rng = Rng::new(rng.next());
     let mut ndrops = 0u32;
     let mut dropf = || {
-        let d = dropper_rng.bool();
+        let d = drop_all.unwrap_or_else(|| dropper_rng.bool());
         if d {
             ndrops += 1;
         }
@@ -702,6 +722,16 @@ fn short_streams<F: GenFam>(rng: &mut Rng) -> Vec<Vec<u8>> {
     for e in extra {
         v.push(e.to_vec());
     }
+    // an invalid first byte (reserved type, wrong reserved flags, PUBLISH QoS 3) followed by a header that is cut short,
+    // over-long, or complete: which of the two faults is reported must not depend on the schedule
+    for cb in [0x00u8, 0x36, 0x61, 0x83, 0xF1, 0xF0] {
+        for tail in [&[][..], &[0x80], &[0x80, 0x80, 0x80], &[0x80, 0x80, 0x80, 0x80], &[0x80, 0x80, 0x80, 0x80, 0x01],
+                     &[0xFF, 0xFF, 0xFF, 0x7F], &[0x02, 0x00]] {
+            let mut e = vec![cb];
+            e.extend_from_slice(tail);
+            v.push(e);
+        }
+    }
     let base: Vec<Vec<u8>> = v.clone();
     for s in base.iter().take(10) {
         let mut t = s.clone();
@@ -746,6 +776,37 @@ pub fn record_poll(out: &mut Out, tier: &str, seed: u64) {
                     poll_schedule_run::<V5>(out, &mut rng, run, &v);
                 } else {
                     poll_schedule_run::<V3>(out, &mut rng, run, &v);
+                }
+            }
+        }
+    }
+    // frames of every length-field width and on both sides of 64 KiB / 128 KiB, under the schedules that a random
+    // draw rarely produces: a Pending before EVERY read with the future dropped at every one of them (whole-buffer and
+    // 4 KiB reads), and a single Pending exactly between the fixed header and the body (dropped / kept)
+    for n in [5usize, 128, 300, 16384, 65535, 65536, 65537, 70001, 131072, 131073] {
+        for fam5 in [false, true] {
+            let mut body = vec![0u8, 1, b'a'];
+            if fam5 {
+                body.push(0);
+            }
+            let fill = n.max(body.len() + 1) - body.len();
+            body.extend((0..fill).map(|k| (k % 251) as u8));
+            let mut v = crate::topic::frame(0x30, &body);
+            v.extend_from_slice(&[0xC0, 0x00]);
+            let hdr = v.len() - 2 - body.len();
+            let scripts: Vec<(Vec<RStep>, RStep, Option<bool>)> = vec![
+                ((0..40).flat_map(|_| [RStep::Pending, RStep::Data(usize::MAX)]).collect(), RStep::Data(usize::MAX), Some(true)),
+                ((0..200).flat_map(|_| [RStep::Pending, RStep::Data(4096)]).collect(), RStep::Data(4096), Some(true)),
+                ((0..hdr).map(|_| RStep::Data(1)).chain([RStep::Pending]).collect(), RStep::Data(usize::MAX), Some(true)),
+                ((0..hdr).map(|_| RStep::Data(1)).chain([RStep::Pending]).collect(), RStep::Data(usize::MAX), Some(false)),
+                ((0..hdr).map(|_| RStep::Data(1)).chain([RStep::Pending, RStep::Data(1), RStep::Pending]).collect(), RStep::Data(usize::MAX), Some(true)),
+            ];
+            for (sc, dflt, dr) in scripts {
+                run += 1;
+                if fam5 {
+                    poll_scripted_run::<V5>(out, &mut rng, run, &v, Some((sc, dflt)), dr);
+                } else {
+                    poll_scripted_run::<V3>(out, &mut rng, run, &v, Some((sc, dflt)), dr);
                 }
             }
         }
@@ -938,6 +999,17 @@ pub fn record_stream(out: &mut Out, tier: &str, seed: u64) {
         } else if let Some(p) = big_publish::<V3>(rl) {
             stream_events_with::<V3>(out, &mut rng, &mut bb, 900_000 + k as u64, vec![p], Some(front));
         }
+    }
+    // the boundary packets (remaining length / property length on and around every width boundary, per packet type),
+    // five at a time at the front of a stream, through each front-end in turn
+    let fronts = ["poll", "async", "block"];
+    let bp3 = crate::wire::boundary_packets_v3("quick");
+    for (k, ch) in bp3.chunks(5).enumerate() {
+        stream_events_with::<V3>(out, &mut rng, &mut bb, 910_000 + k as u64, ch.to_vec(), Some(fronts[k % 3]));
+    }
+    let bp5 = crate::wire::boundary_packets_v5("quick");
+    for (k, ch) in bp5.chunks(5).enumerate() {
+        stream_events_with::<V5>(out, &mut rng, &mut bb, 920_000 + k as u64, ch.to_vec(), Some(fronts[k % 3]));
     }
     for run in 0..n {
         stream_events::<V3>(out, &mut rng, &mut b, 2 * run as u64 + 1);
